@@ -150,11 +150,14 @@ func newKeyCodec(kt string, nk int, bf uint, rng *rand.Rand, userLayers []int, m
 		set := map[int64]bool{}
 		for len(set) < nk {
 			var v int64
-			switch rng.Intn(3) {
-			case 0:
+			switch rng.Intn(7) {
+			case 0, 1:
 				v = int64(rng.Intn(60))
-			case 1:
+			case 2, 3:
 				v = int64(1+rng.Intn(5)) * int64(bf)
+			case 4:
+				// very high layers at small branch factors (multiples of 2^32 and beyond: layer >= 32 at branch factor 2)
+				v = int64(1+rng.Intn(6)) << uint(32+rng.Intn(8))
 			default:
 				v = int64(1+rng.Intn(3)) * int64(bf) * int64(bf)
 				if rng.Intn(3) == 0 {
